@@ -114,7 +114,7 @@ Definition spec_pair_updates (cf : cfg) (d : dirp) (means : list Q) (a b : sampl
     | None => []
     | Some k =>
         let pc o := {| p_w1 := get_weight cf a; p_w2 := get_weight cf b;
-                       p_dlo := sqrt_lo (g_d2 g); p_dhi := sqrt_hi (g_d2 g); p_ipas := k; p_orient := o |} in
+                       p_dlo := sqrt_lo (g_d2 g); p_dhi := sqrt_hi (g_d2 g); p_ipas := k; p_orient := o; p_coinc := false |} in
         if is_asym (c_calc cf) then
           match spec_orient g with
           | Ozero => map halve (spec_evaluate cf (d_npas d) means (pc Oplus) a b ++ spec_evaluate cf (d_npas d) means (pc Ominus) a b)
